@@ -11,6 +11,7 @@ mod query;
 mod replica;
 mod session;
 mod storetx;
+mod swarm;
 mod syncsession;
 mod world;
 
@@ -117,6 +118,12 @@ fn main() {
             let mut rng = Rng::new(seed);
             let scheds = args.kv.get("schedules").map(|p| read_schedules(p)).unwrap_or_default();
             storetx::run(&w, seed, &mut rng, scheds, args.num("n", 10) as usize, &dir, &mut trace, &mut sum);
+        }
+        "swarm" => {
+            let w = World::new(seed, 3, 3);
+            let mut rng = Rng::new(seed);
+            let scheds = args.kv.get("schedules").map(|p| read_schedules(p)).unwrap_or_default();
+            swarm::run(&w, seed, &mut rng, scheds, args.num("n", 30) as usize, &dir, &mut trace, &mut sum);
         }
         "docs" => {
             let w = World::new(seed, 3, 7);
